@@ -78,6 +78,8 @@ type FuncVC struct {
 	curInstr      ssa.Instruction
 	pendingAt     ssa.CallInstruction
 	storeOrd      map[ssa.Instruction]int
+	cutStarted    map[int]bool
+	entryPC       int
 }
 
 func (vc *FuncVC) addTrivial(name string) { vc.trivial[name]++ }
@@ -344,6 +346,7 @@ func VerifyFunc(g *Gen, fn *ssa.Function, con *Contract, maxPaths int) *FuncVC {
 	if len(vc.loops) > 0 && con.Bounded == 0 {
 		st := vc.initState()
 		st.dry = &dryRun{vc}
+		vc.cutStarted = map[int]bool{}
 		vc.explore(st, fn.Blocks[0], 0, nil, nil)
 		vc.paths = 0
 		vc.obls = nil
@@ -421,6 +424,8 @@ func VerifyFunc(g *Gen, fn *ssa.Function, con *Contract, maxPaths int) *FuncVC {
 		st.old[k] = v
 	}
 	st.written = map[string]bool{}
+	vc.entryPC = len(st.pc)
+	vc.cutStarted = map[int]bool{}
 	vc.explore(st, fn.Blocks[0], 0, nil, nil)
 	return vc
 }
@@ -546,6 +551,10 @@ func (vc *FuncVC) explore(st *State, b *ssa.BasicBlock, idx int, prev *ssa.Basic
 							}
 							if pt, ok := x.X.Type().Underlying().(*types.Pointer); ok {
 								st.fr.localAddr[obj.Name()] = SV{V: v, T: x.X.Type(), Deref: pt.Elem()}
+								if st.fr.addrSrc == nil {
+									st.fr.addrSrc = map[string]ssa.Value{}
+								}
+								st.fr.addrSrc[obj.Name()] = x.X
 							}
 						}
 					}
@@ -555,6 +564,10 @@ func (vc *FuncVC) explore(st *State, b *ssa.BasicBlock, idx int, prev *ssa.Basic
 						if v, ok := st.fr.regs[x.X]; ok {
 							st.fr.locals[obj.Name()] = v
 							st.fr.localT[obj.Name()] = x.X.Type()
+							if st.fr.localSrc == nil {
+								st.fr.localSrc = map[string]ssa.Value{}
+							}
+							st.fr.localSrc[obj.Name()] = x.X
 						} else if c, ok := x.X.(*ssa.Const); ok {
 							st.fr.locals[obj.Name()] = st.constVal(c)
 							st.fr.localT[obj.Name()] = c.Type()
@@ -682,6 +695,34 @@ func (vc *FuncVC) explore(st *State, b *ssa.BasicBlock, idx int, prev *ssa.Basic
 			st.execInstr(in)
 			if top {
 				vc.chanHooks(st, in)
+				// heap-allocated (captured) local variable: specs name it through its cell
+				if al, ok := in.(*ssa.Alloc); ok && al.Heap && al.Comment != "" && st.fr.locals != nil {
+					switch al.Comment {
+					case "varargs", "makeslice", "complit", "slicelit", "new":
+					default:
+						if pt, ok := al.Type().Underlying().(*types.Pointer); ok {
+							if st.fr.localAddr == nil {
+								st.fr.localAddr = map[string]SV{}
+							}
+							if st.fr.addrSrc == nil {
+								st.fr.addrSrc = map[string]ssa.Value{}
+							}
+							st.fr.localAddr[al.Comment] = SV{V: st.fr.regs[al], T: al.Type(), Deref: pt.Elem()}
+							st.fr.addrSrc[al.Comment] = al
+						}
+					}
+				}
+				// range-over-slice loops: the hidden length register is visible to specs as "rangelen"
+				if bo, ok := in.(*ssa.BinOp); ok && b.Comment == "rangeindex.loop" && bo.Op == token.LSS && st.fr.locals != nil {
+					if yv, ok := st.fr.regs[bo.Y]; ok {
+						st.fr.locals["rangelen"] = yv
+						st.fr.localT["rangelen"] = bo.Y.Type()
+						if st.fr.localSrc == nil {
+							st.fr.localSrc = map[string]ssa.Value{}
+						}
+						st.fr.localSrc["rangelen"] = bo.Y
+					}
+				}
 			}
 			if st.step != nil && st.step.pending != "" && st.dry == nil {
 				// a plain write to shared state is a step of its own
@@ -754,6 +795,7 @@ func (vc *FuncVC) chanHooks(st *State, in ssa.Instruction) {
 		}
 		v := st.fr.regs[x]
 		if x.CommaOk {
+			st.lastRecv = v.Fs[1].T
 			v = v.Fs[0]
 		}
 		elemT := x.X.Type().Underlying().(*types.Chan).Elem()
@@ -789,11 +831,32 @@ func (vc *FuncVC) chanHooks(st *State, in ssa.Instruction) {
 
 // loopCut handles arrival at a loop header of the verified function. Returns false if the path ends here.
 func (vc *FuncVC) loopCut(st *State, li *loopInfo, prev *ssa.BasicBlock, phis []*ssa.Phi) bool {
+	if li.header.Comment == "rangeindex.loop" && st.fr.locals != nil {
+		for _, in := range li.header.Instrs {
+			if bo, ok := in.(*ssa.BinOp); ok && bo.Op == token.LSS {
+				if yv, ok := st.fr.regs[bo.Y]; ok {
+					st.fr.locals["rangelen"] = yv
+					st.fr.localT["rangelen"] = bo.Y.Type()
+					if st.fr.localSrc == nil {
+						st.fr.localSrc = map[string]ssa.Value{}
+					}
+					st.fr.localSrc["rangelen"] = bo.Y
+				}
+				break
+			}
+		}
+	}
 	ls := vc.con.Loops[li.ord]
 	back := prev != nil && li.header.Dominates(prev) && li.blocks[prev]
 	if st.dry != nil {
 		if back {
 			return false
+		}
+		if ls != nil && ls.FullCut {
+			if vc.cutStarted[li.ord] {
+				return false
+			}
+			vc.cutStarted[li.ord] = true
 		}
 		for _, h := range sortedKeys(st.g.heapSort) {
 			if h != "$alive" && h != "$brk" {
@@ -835,6 +898,31 @@ func (vc *FuncVC) loopCut(st *State, li *loopInfo, prev *ssa.BasicBlock, phis []
 	}
 	env := st.specEnv(vc.pkg, vc.specVars(st))
 	vc.checkClauses(st, env, ls.Invariants, kind+".inv-entry")
+	if ls.FullCut {
+		if vc.cutStarted[li.ord] {
+			return false
+		}
+		vc.cutStarted[li.ord] = true
+		vc.fullCut(st)
+		// range loops: the hidden length register is by definition the length of the ranged slice value
+		// (both are immutable registers computed before the loop on every path)
+		if li.header.Comment == "rangeindex.loop" {
+			for _, in := range li.header.Instrs {
+				if bo, ok := in.(*ssa.BinOp); ok && bo.Op == token.LSS {
+					if call, ok := bo.Y.(*ssa.Call); ok {
+						if bi, ok := call.Call.Value.(*ssa.Builtin); ok && bi.Name() == "len" && len(call.Call.Args) == 1 {
+							if sv, ok := st.fr.regs[call.Call.Args[0]]; ok && sv.K == KSlice {
+								if lv, ok := st.fr.regs[bo.Y]; ok {
+									st.assume(fmt.Sprintf("(= %s %s)", lv.T, sv.Fs[1].T))
+								}
+							}
+						}
+					}
+					break
+				}
+			}
+		}
+	}
 	for _, h := range sortedKeys(li.writes) {
 		if _, known := st.g.heapSort[h]; known && h != "$alive" && h != "$brk" {
 			st.havocHeap(h)
@@ -866,7 +954,11 @@ func (vc *FuncVC) loopCut(st *State, li *loopInfo, prev *ssa.BasicBlock, phis []
 		}
 		st.step.touched = true
 	}
-	fg := vc.frameGoals(st, sortedKeys(li.writes))
+	frameHeaps := sortedKeys(li.writes)
+	if ls.FullCut {
+		frameHeaps = sortedKeys(st.g.heapSort)
+	}
+	fg := vc.frameGoals(st, frameHeaps)
 	for _, h := range sortedKeys(fg) {
 		st.assume(fg[h])
 	}
@@ -886,7 +978,59 @@ func (vc *FuncVC) setPhi(st *State, p *ssa.Phi, v Val) {
 	if p.Comment != "" {
 		st.fr.locals[p.Comment] = v
 		st.fr.localT[p.Comment] = p.Type()
+		if st.fr.localSrc == nil {
+			st.fr.localSrc = map[string]ssa.Value{}
+		}
+		st.fr.localSrc[p.Comment] = p
 	}
+}
+
+// fullCut forgets everything path-dependent at a loop head declared "loop k cut": the path condition beyond the
+// function's entry assumptions, every heap and every SSA register. What the continuation knows is the loop
+// invariant (plus the frame relative to the entry state).
+func (vc *FuncVC) fullCut(st *State) {
+	if vc.entryPC < len(st.pc) {
+		st.pc = append([]string(nil), st.pc[:vc.entryPC]...)
+	}
+	for _, h := range sortedKeys(st.g.heapSort) {
+		st.heaps[h] = st.g.heapConst(h, st.g.heapSort[h])
+		st.markWritten(h)
+	}
+	if b0, ok := st.old["$brk"]; ok {
+		st.assume(fmt.Sprintf("(>= (select %s 0) (select %s 0))", st.heaps["$brk"], b0))
+	} else if _, known := st.g.heapSort["$brk"]; known {
+		st.assume(fmt.Sprintf("(>= (select %s 0) (select %s 0))", st.heaps["$brk"], st.g.heap0("$brk", "(Array Int Int)")))
+	}
+	params := map[ssa.Value]bool{}
+	for _, p := range vc.fn.Params {
+		params[p] = true
+	}
+	for v := range st.fr.regs {
+		if params[v] {
+			continue
+		}
+		t := v.Type()
+		nv := st.freshVal(t, "cut."+v.Name())
+		if pt, ok := t.Underlying().(*types.Pointer); ok {
+			nv = st.ptrTo(pt.Elem(), nv.T)
+		}
+		st.fr.regs[v] = nv
+	}
+	for name, src := range st.fr.localSrc {
+		if v, ok := st.fr.regs[src]; ok {
+			st.fr.locals[name] = v
+		}
+	}
+	for name, src := range st.fr.addrSrc {
+		if v, ok := st.fr.regs[src]; ok {
+			if pt, ok := src.Type().Underlying().(*types.Pointer); ok {
+				st.fr.localAddr[name] = SV{V: v, T: src.Type(), Deref: pt.Elem()}
+			}
+		}
+	}
+	st.loopSt = map[int]*loopEntry{}
+	st.fr.defers = nil
+	st.pathLog = append(st.pathLog, "CUT")
 }
 
 // finish: return of the verified function.
@@ -903,6 +1047,14 @@ func (vc *FuncVC) finish(st *State, res Val) {
 		env = st.specEnv(vc.pkg, vars)
 	}
 	vc.checkClauses(st, env, vc.con.Ensures, "ensures")
+	if vc.con.Drains {
+		// a worker that ranges over a work channel must not return while the channel may still deliver work
+		g := "false"
+		if st.lastRecv != "" {
+			g = not(st.lastRecv)
+		}
+		st.oblige("drain[work-channel]", g, "return before the work channel is closed (the feeder would block forever)")
+	}
 	vc.frameCheck(st, env)
 }
 
